@@ -3,7 +3,7 @@
     objects (Model/FloatTables.v relates them to the millisecond parameters). The statements
     quantify over every state reachable by any sequence of micro-steps (Proofs/MicroP.v:
     every schedule of process() calls, user calls and clock ticks is such a sequence). *)
-From IsoTp Require Import Base.Prelude Model.Micro Model.FloatTables Spec.ConfigSpec Proofs.Events Proofs.Inv Proofs.FsmProps Proofs.LocalP.
+From IsoTp Require Import Base.Prelude Model.Micro Model.FloatTables Spec.ConfigSpec Proofs.Events Proofs.Inv Proofs.FsmProps Proofs.LocalP Proofs.MailboxP.
 
 (** ConsecutiveFrameTimeoutError is reported by a micro-step iff that step is the timeout check
     of the reception loop, a reception is in progress, and more than rx_consecutive_frame_timeout
@@ -61,6 +61,18 @@ Proof. exact timers_idle. Qed.
 Theorem C07_conversion : forall ms, 0 <= ms <= 20000 -> ms * 1000000 - 1 <= to_ns ms <= ms * 1000000.
 Proof. exact to_ns_bounds. Qed.
 
+(** The boundary: a running N_Cr / N_Bs / STmin timer with a non-zero timeout has expired iff MORE than the timeout has elapsed since it
+    was started - what is processed exactly on the deadline is still in time, one nanosecond later it is late. *)
+Theorem C07_boundary : forall nw t s, t_start t = Some s -> 0 < t_timeout t ->
+  (timer_timed_out nw t = true <-> t_timeout t < nw - s).
+Proof. exact timer_boundary. Qed.
+
+Theorem C07_on_deadline : forall t s, t_start t = Some s -> 0 < t_timeout t ->
+  timer_timed_out (s + t_timeout t) t = false /\ timer_timed_out (s + t_timeout t + 1) t = true.
+Proof. exact timer_on_deadline. Qed.
+
+Print Assumptions C07_boundary.
+Print Assumptions C07_on_deadline.
 Print Assumptions C07_rx_iff.
 Print Assumptions C07_conversion.
 Print Assumptions C07_rx_effect.
